@@ -17,7 +17,7 @@
    see notes/C10.md for what is still open. *)
 From Coq Require Import List ZArith.
 From RtoscV Require Import Pretty.Tok Pretty.FloatFmt Pretty.PrintModel Pretty.ScanModel
-  Pretty.PrettyProofs Pretty.RangeProofs Pretty.RunProofs Pretty.ListProofs Pretty.ArrayProofs Pretty.PrettyRegress.
+  Pretty.PrettyProofs Pretty.FloatProofs Pretty.SymBlobProofs Pretty.RangeProofs Pretty.RunProofs Pretty.ListProofs Pretty.ArrayProofs Pretty.MixedProofs Pretty.PrettyRegress.
 Import ListNotations.
 Local Open Scope Z_scope.
 
@@ -50,13 +50,15 @@ Proof. exact (fun a b vs T H => conj (count_lang a b vs T H) (scan_lang a b vs T
    values into a range block, the block expands (PrintModel.expand) to exactly
    the kk slots it replaces, and kk >= 5 (the threshold).  For runs with a step
    (types i, h, c; wrap-around arithmetic) and constant runs of every scalar
-   type except floats/doubles (their == is not identity: signed-zero-run). *)
-Theorem C10_range_expand : forall o args size c kk,
-  Forall scalar args -> Forall inrv args -> exact (hd VN args) ->
+   type; floats/doubles that are no NaN, and one zero pattern of each type (zf, zd)
+   does not occur (their == identifies +0.0 and -0.0: signed-zero-run). *)
+Theorem C10_range_expand : forall zf zd o args size c kk,
+  zf = 0 \/ zf = 2 ^ 31 -> zd = 0 \/ zd = 2 ^ 63 ->
+  Forall scalar args -> Forall (inrv zf zd) args -> exact (hd VN args) ->
   Z.of_nat (length args) < 2 ^ 31 ->
   convert_to_range o args size = CYes c kk ->
   exists n, kk = Z.of_nat n /\ (5 <= n)%nat /\ expand c = Some (firstn n args).
-Proof. exact range_expand. Qed.
+Proof. exact (fun zf zd o a s c k Hf Hd => range_expand zf zd Hf Hd o a s c k). Qed.
 
 (* whole messages (rtosc_print_message / rtosc_count_printed_arg_vals_of_msg /
    rtosc_scan_message): the same for an address that starts with '/' and has
@@ -83,36 +85,40 @@ Proof. exact elements_agree. Qed.
    any line length, precision, column): for lists of int32/int64/char values,
    true/false/nil/inf, strings and quoted symbols (goodc: the FULL int32/int64
    range since the range_step_fits fix; strings/symbols/chars without '.' -
-   finding D28 -; floats, plain symbols,
-   blobs, MIDI, colours, arrays and time tags are outside), the returned count
+   finding D28 -; MIDI, colours; with the lossless option every finite float
+   and double, printed as "<decimal> (<hexadecimal>)", in lists that do not
+   contain both +0.0 and -0.0 of one type (nozmix: finding signed-zero-run, the
+   classifier's predicate); symbols printed bare (identifier-shaped, no reserved
+   word) and blobs of any length with their line breaks (goodx); arrays among
+   other values and time tags are outside), the returned count
    is the text length, the checker accepts with the number of slots the scanner
    then writes, the scanner consumes the whole text, and the slots expand to
    the original values. *)
 Theorem C10_roundtrip_any_partial : forall (dec2f dec2d : list Z -> Z) o vs text w,
-  Forall goodc vs -> Z.of_nat (length vs) < 2 ^ 31 ->
+  Forall (goodv o) vs -> nozmix vs -> Z.of_nat (length vs) < 2 ^ 31 ->
   print_arg_vals o vs 0 = Some (text, w) ->
   exists slots,
     w = len text /\
     count_printed_arg_vals dec2f dec2d text = Ok (true, Z.of_nat (length slots)) /\
     scan_arg_vals dec2f dec2d text (Z.of_nat (length slots)) = Ok (slots, []) /\
     expand slots = Some vs.
-Proof. exact roundtrip_any. Qed.
+Proof. exact roundtrip_any_nz. Qed.
 
 (* the same for whole messages (rtosc_print_message / count_of_msg /
    rtosc_scan_message), compression on or off *)
 Theorem C10_message_any_partial : forall (dec2f dec2d : list Z -> Z) o addr vs text w,
-  good_addr addr -> Forall goodc vs -> Z.of_nat (length vs) < 2 ^ 31 ->
+  good_addr addr -> Forall (goodv o) vs -> nozmix vs -> Z.of_nat (length vs) < 2 ^ 31 ->
   print_message o addr vs 0 = Some (text, w) ->
   exists slots,
     w = len text /\
     count_printed_arg_vals_of_msg dec2f dec2d text = Ok (true, Z.of_nat (length slots)) /\
     scan_message dec2f dec2d text (Z.of_nat (length slots)) = Ok (addr, slots, []) /\
     expand slots = Some vs.
-Proof. exact message_roundtrip_any. Qed.
+Proof. exact message_roundtrip_any_nz. Qed.
 
 (* non-vacuity: a list with a constant run, an elided and an explicit run *)
-Theorem C10_roundtrip_any_nonvacuous :
-  Forall goodc ([VT; VT; VT; VT; VT; VI 7] ++ map VI [1; 2; 3; 4; 5; 6] ++ map VH [10; 20; 30; 40; 50]) /\
+Theorem C10_roundtrip_any_nonvacuous : forall o,
+  Forall (goodv o) ([VT; VT; VT; VT; VT; VI 7] ++ map VI [1; 2; 3; 4; 5; 6] ++ map VH [10; 20; 30; 40; 50]) /\
   exists text w, print_arg_vals {| lossless := true; prec := 2; linelength := 20; compress := true |}
     ([VT; VT; VT; VT; VT; VI 7] ++ map VI [1; 2; 3; 4; 5; 6] ++ map VH [10; 20; 30; 40; 50]) 0 = Some (text, w).
 Proof. exact roundtrip_any_example. Qed.
@@ -128,7 +134,7 @@ Proof. exact roundtrip_any_example. Qed.
    Outside: arrays among other values of a list (the checker looks for the left
    neighbour of a later range in the text of the array), nested arrays. *)
 Theorem C10_array_roundtrip_partial : forall (dec2f dec2d : list Z -> Z) o ty elems text w,
-  Forall goodc elems -> homog elems -> Z.of_nat (length elems) + 1 < 2 ^ 31 ->
+  Forall (goodv o) elems -> nozmix elems -> homog elems -> Z.of_nat (length elems) + 1 < 2 ^ 31 ->
   print_arg_vals o (VArr ty (Z.of_nat (length elems)) :: elems) 0 = Some (text, w) ->
   exists ty' slots,
     w = len text /\
@@ -136,7 +142,7 @@ Theorem C10_array_roundtrip_partial : forall (dec2f dec2d : list Z -> Z) o ty el
     scan_arg_vals dec2f dec2d text (1 + Z.of_nat (length slots))
     = Ok (VArr ty' (Z.of_nat (length slots)) :: slots, []) /\
     expand slots = Some elems /\ ty' = last_type elems.
-Proof. exact roundtrip_array. Qed.
+Proof. exact roundtrip_array_nz. Qed.
 
 (* the bracketed text forms themselves, after any value and before anything that
    may follow a value: both recognisers read "[" items "]" when the item types
@@ -153,12 +159,34 @@ Theorem C10_array_reads_partial : forall (dec2f dec2d : list Z -> Z) its T,
 Proof. exact array_reads. Qed.
 
 (* non-vacuity: [1 2 3 4 5 6 9 8 8 8 8 8 8] prints as "[1 ... 6 9 6x8]" *)
-Theorem C10_array_nonvacuous :
-  Forall goodc example_elems /\ homog example_elems /\
+Theorem C10_array_nonvacuous : forall o,
+  Forall (goodv o) example_elems /\ homog example_elems /\
   exists w, print_arg_vals {| lossless := true; prec := 2; linelength := 20; compress := true |}
     (VArr 105 (Z.of_nat (length example_elems)) :: example_elems) 0
   = Some ([91; 49; 32; 46; 46; 46; 32; 54; 32; 57; 32; 54; 120; 56; 93], w).
 Proof. exact roundtrip_array_example. Qed.
+
+(* ARRAYS AMONG OTHER VALUES (recogniser half): a text made of items (values,
+   "NxV", range tails - as in C10_compressed_reads_partial) and non-empty arrays
+   "[" items "]" in any order, separated by any white space, is counted and
+   scanned to the expected slots, PROVIDED NO RANGE TAIL "b ... c" DIRECTLY
+   FOLLOWS AN ARRAY (m_ok with the context None = "the element before was an
+   array" demands is_tail = false).  That exclusion is the finding class
+   range-after-array, the predicate of its classifier (a closing bracket, white
+   space, one token, white space, "..."): the checker looks for the tail's left
+   neighbour in the TEXT of the array (and finds an ellipsis inside it), the
+   scanner in the slots before. *)
+Theorem C10_mixed_reads_partial : forall (dec2f dec2d : list Z -> Z) ms T,
+  mseq dec2f dec2d (Some None) ms T ->
+  count_printed_arg_vals dec2f dec2d T = Ok (true, Z.of_nat (length (mslots ms))) /\
+  scan_arg_vals dec2f dec2d T (Z.of_nat (length (mslots ms))) = Ok (mslots ms, []).
+Proof. exact mseq_reads. Qed.
+
+(* non-vacuity: "[1 ... 6 9] true 3 ... 7" *)
+Theorem C10_mixed_nonvacuous : forall (dec2f dec2d : list Z -> Z),
+  exists T, mseq dec2f dec2d (Some None) ex_mixed T /\
+            T = [91; 49; 32; 46; 46; 46; 32; 54; 32; 57; 93; 32; 116; 114; 117; 101; 32; 51; 32; 46; 46; 46; 32; 55].
+Proof. exact mixed_example. Qed.
 
 (* the text forms the printer uses with compression on - values, repetitions
    "NxV", range tails "b ... c" (the explicit form "a b ... c" is the value a
@@ -175,6 +203,39 @@ Proof.
   exact (fun a b its T H => conj (proj1 (iseq_reads a b its T H))
                                  (conj (proj2 (iseq_reads a b its T H)) (expand_items a b its None T H))).
 Qed.
+
+(* floats and doubles, lossless form: the hexadecimal text printf("%a") writes
+   for the (promoted) value is read back to the same bit pattern, for EVERY
+   finite float and double (subnormals, both zeroes); FloatFmt.fmt_a and
+   hex_to_f32/f64 are concrete functions on bit patterns, no oracle *)
+Theorem C10_hexfloat_roundtrip :
+  (forall b, 0 <= b < 2 ^ 32 -> f32_finite b = true -> hex_to_f32 (fmt_a (f32_to_f64 b)) = b) /\
+  (forall b, 0 <= b < 2 ^ 64 -> f64_finite b = true -> hex_to_f64 (fmt_a b) = b).
+Proof. exact (conj f32_roundtrip f64_roundtrip). Qed.
+
+(* ... and both recognisers read the printed token "<%#.<p>f> (<%a>)" resp.
+   "<%#.<p>f>d (<%a>)" back to those bits, for every precision p, whatever the
+   oracles say about the decimal part (its value is overwritten) *)
+Theorem C10_float_tokens : forall (dec2f dec2d : list Z -> Z) p,
+  (forall b, 0 <= b < 2 ^ 32 -> f32_finite b = true ->
+     tok_core dec2f dec2d (VFl b) (fmt_f p (f32_to_f64 b) ++ [32; 40] ++ fmt_a (f32_to_f64 b) ++ [41])) /\
+  (forall b, 0 <= b < 2 ^ 64 -> f64_finite b = true ->
+     tok_core dec2f dec2d (VD b) (fmt_f p b ++ 100 :: [32; 40] ++ fmt_a b ++ [41])).
+Proof. exact (fun a b p => conj (tok_float a b p) (tok_double a b p)). Qed.
+
+(* bare symbols and blobs: both recognisers read the printed token back *)
+Theorem C10_symbol_blob_tokens : forall (dec2f dec2d : list Z -> Z),
+  (forall s, sym_plain s = true -> tok_core dec2f dec2d (VSym s) s) /\
+  (forall o d cols t w c, Forall byte_ok d -> print_blob o d cols = (t, w, c) ->
+     tok_core dec2f dec2d (VB d) t /\ w = len t).
+Proof. exact symbol_blob_tokens. Qed.
+
+(* non-vacuity: 1.5f six times (a compressed run), 0.1 as a double, the smallest
+   subnormal float, an int, a bare symbol, a blob *)
+Theorem C10_float_nonvacuous :
+  Forall (goodv ex_fl_opts) ex_fl_list /\ nozmix ex_fl_list /\
+  exists text w, print_arg_vals ex_fl_opts ex_fl_list 0 = Some (text, w).
+Proof. exact float_list_example. Qed.
 
 (* decimal integers: no open hypothesis about printf/sscanf *)
 Theorem C10_decimal_roundtrip : forall v rest,
@@ -212,6 +273,18 @@ Theorem C10_range_refuted_D26 :
   (exists text w, print_arg_vals opts_c wrap_run 0 = Some (text, w) /\
      scan_arg_vals no_oracle no_oracle text 6 = Ok (wrap_run, [])).
 Proof. exact D26_witness. Qed.
+
+(* D32 (fixed in the repository): the checker searched the text of a preceding
+   array for the ellipsis of "a preceding range"; "[1 ... 6 9] 9 ... 13" (what
+   the printer writes for [1 2 3 4 5 6 9] 9 10 11 12 13) was rejected *)
+Theorem C10_roundtrip_refuted_D32 :
+  (exists w, print_arg_vals opts_c arr_then_run 0 = Some (arr_then_run_text, w)) /\
+  chk_l1_D32 arr_then_run_text (skipn 14 arr_then_run_text) = Some (skipn 7 arr_then_run_text) /\
+  chk_l1 arr_then_run_text (skipn 14 arr_then_run_text) = Some arr_then_run_text /\
+  count_printed_arg_vals no_oracle no_oracle arr_then_run_text = Ok (true, 8) /\
+  (exists slots, scan_arg_vals no_oracle no_oracle arr_then_run_text 8 = Ok (slots, []) /\
+                 length slots = 8%nat).
+Proof. exact D32_witness. Qed.
 
 (* the hypotheses are satisfiable by a list that needs a line break, a string
    broken in two and an escaped quote *)
